@@ -16,3 +16,14 @@ for h, fn, l2 in (('h_scan', 'scan<', 13), ('h_scan_from', 'scan_from<', 17), ('
     job('scan.loops.u64.%s' % h[2:], ['C02'], 'u_db', 'proofs/scan/loops.c', entry=h, defines=['LOOPTWO=%d' % l2], roots={'SCAN': r'^void ' + D64 + fn}, stubs=ITSTUBS, cfgs=(BASE, DEBUG), unwind=10, floor=10, timeout=300,
         cut=['SCAN/while_2econd', 'SCAN/while_2econd%d' % l2], under_contract=['db<uint64_t>::%s (visitor loops, direction and bounds)' % fn.rstrip('<')],
         trusted=['iterator contracts over an abstract ascending sequence (the iterator itself is proved separately / not covered: see level_note)'])
+IMPL = r'^unodb::detail::basic_inode_impl<unodb::detail::basic_art_policy<unsigned long, %s, unodb::db, .*>::' % SPAN
+NP = r'^auto\* unodb::detail::basic_node_ptr<unodb::detail::node_header>::ptr<unodb::detail::'
+SEEK_STUBS = {'EMPTY': IT + r'empty\(\) const', 'TOP': IT + r'top\(\) const', 'POP': IT + r'pop\(\)', 'PUSH_E': IT + r'push\(unodb::detail::iter_result', 'PUSH4': IT + r'push\(unodb::detail::basic_node_ptr',
+              'PUSH_LEAF': IT + r'push_leaf\(', 'INVALIDATE': IT + r'invalidate\(\)', 'LMT': IT + r'left_most_traversal\(', 'RMT': IT + r'right_most_traversal\(', 'NEXT': IT + r'next\(\)', 'PRIOR': IT + r'prior\(\)',
+              'N_NEXT': IMPL + r'next\(unodb::node_type, unsigned char\)', 'N_PRIOR': IMPL + r'prior\(unodb::node_type, unsigned char\)', 'N_GTE': IMPL + r'gte_key_byte\(unodb::node_type, std::byte\)',
+              'N_LTE': IMPL + r'lte_key_byte\(unodb::node_type, std::byte\)', 'N_FIND': IMPL + r'find_child\(unodb::node_type, std::byte\)', 'N_GET': IMPL + r'get_child\(unodb::node_type, unsigned char\)',
+              'PTR_LEAF': NP + r'basic_leaf<unsigned long, unodb::detail::node_header>\*>\(\) const', 'PTR_INODE': NP + r'inode<unsigned long, %s >\*>\(\) const' % SPAN}
+for nk in (0, 1):
+    job('scan.iter.u64.seek.k%d' % nk, ['C02'], 'u_db', 'proofs/scan/seek.c', defines=['NODEKIND=%d' % nk], roots={'SEEK': IT + r'seek\('}, stubs=SEEK_STUBS, cut=['SEEK/while_2ebody'], cfgs=(BASE, DEBUG),
+        unwind=12, floor=20, timeout=600, replay='replay/seek.cpp', under_contract=['db<uint64_t>::iterator::seek (descent step at a %s)' % ('leaf' if nk == 0 else 'inner node')],
+        bounded=None, trusted=['std::stack replaced by a ghost sequence contract', 'ordering consequence of the structural postconditions (two-probe lemma over path consistency and ascending child enumeration) is not mechanised'])
